@@ -30,6 +30,10 @@ OPS1 = ['test', 'idx', 'ref', 'reset', 'flip', 'shla', 'shl', 'shra', 'shr']    
 OPS2 = ['put', 'set', 'resize']                                                   # numeric + bool
 OPS0 = ['setall', 'resetall', 'flipall', 'not']
 OPSB = ['anda', 'ora', 'xora', 'and', 'or', 'xor', 'eq', 'assign']               # use operand B
+# whole-object replacement from the operand B: vector<bool> (copy, move), DynamicBitset, std::bitset<N> (assignment
+# and construction; N = size of B, instantiated in the harness for BS_SIZES)
+OPSA = ['assignmv', 'assigndb', 'ctormv', 'assignbs', 'ctorbs']
+BS_SIZES = (1, 2, 3, 4, 5, 6, 7, 8, 9, 10, 16, 63, 64, 65, 100)
 
 
 def _bits(s):
@@ -80,7 +84,7 @@ def ref_apply(a, tok, b, grown_size=None):
         return '-', [not x for x in a]
     if op == 'resize':
         return '-', (a[:p] if p <= n else list(a) + [v] * (p - n))
-    if op == 'assign':
+    if op == 'assign' or op in OPSA:
         return '-', list(b)
     if op == 'eq':
         return ('1' if a == b else '0'), a
@@ -284,6 +288,23 @@ def gen_cases(tier, rng):
         for b in _all_bitsets(4):
             for o in OPSB:
                 cases.append('%s %s %s' % (a, b, o))
+    # whole-object replacement after the bitset held something else: every pair of small bitsets, and operands of
+    # the sizes around the word boundary on top of longer / shorter / equally long content
+    for a in _all_bitsets(4):
+        for b in _all_bitsets(4):
+            for o in OPSA:
+                if o in ('assignbs', 'ctorbs') and b == '-':
+                    continue
+                cases.append('%s %s %s' % (a, b, o))
+                cases.append('%s %s setall,%s,flip:1' % (a, b, o))
+    for nb in (16, 63, 64, 65, 100):
+        for na in (0, 3, nb - 1, nb, nb + 1, 130):
+            for fill in ('1', '10'):
+                a = (fill * (na + 1))[:na] or '-'
+                for bpat in ('0', '01', '1'):
+                    b = (bpat * (nb + 1))[:nb]
+                    for o in OPSA:
+                        cases.append('%s %s %s' % (a, b, o))
     if tier != 'quick':
         for a in _all_bitsets(2):
             n = 0 if a == '-' else len(a)
@@ -340,13 +361,15 @@ def gen_cases(tier, rng):
                 tok = rng.choice(OPS0) if not rng.chance(1, 4) else 'flipall'
             else:
                 tok = rng.choice(OPSB)
+                if rng.chance(1, 4):
+                    tok = rng.choice(OPSA if nb in BS_SIZES else OPSA[:3])
             ops.append(tok)
             _, cur = ref_apply(cur, tok, b)
         cases.append('%s %s %s' % (_str(a), _str(b), ','.join(ops)))
     return {'cases': cases, 'exhaustive': True,
             'scopes': ['exhaustive: all bitsets of size 0..%d x every single operation with positions / shift '
                        'distances 0..size+2 (both bool arguments)' % maxn,
-                       'exhaustive: all pairs of bitsets of size 0..4 x {&=,|=,^=,&,|,^,==,=}'] +
+                       'exhaustive: all pairs of bitsets of size 0..4 x {&=,|=,^=,&,|,^,==,=, assignment and construction from vector<bool>&&, DynamicBitset, std::bitset<N>}'] +
                       (['exhaustive: all bitsets of size 0..2 x all sequences of two operations'] if tier != 'quick' else []) +
                       ['random: %d histories of 5..30 operations, sizes %s' % (nrand, sizes)]}
 
@@ -367,7 +390,7 @@ CLAIM = {
             '(theorems C12_pinned_*_refuted).',
     'note': 'trusted: Coq kernel, extraction (ExtrOcamlBasic), the hand-written model (validated by correspondence on '
             'every run), harness; assumptions: positions/sizes below 2^52 (exact double growth computation, no size_t '
-            'wrap), no allocation failure. Not modelled: construction/assignment from std::bitset<N>, move '
+            'wrap), no allocation failure. Not modelled: move '
             'construction, to_string with other characters, operator-- of the reverse iterator (modelled, not proved '
             'about, not exercised); const and post-increment iterator variants are compared with the pre-increment ones '
             'inside the harness only.',
